@@ -395,7 +395,7 @@ def class_src(c, first="self"):
             rcv = None if "staticmethod" in md["decos"] else ("cls" if "classmethod" in md["decos"] else first)
             params = [("p%d" % i, ty_src(t) if t else None) for i, t in enumerate(md["params"])]
             body += render_method(md["name"], md["decos"], params, ty_src(md["ret"]) if md["ret"] else None,
-                                  [(m[1], mention_src(m)) for m in md["body"]], first=rcv)
+                                  [(m[1], mention_src(m)) for m in md["body"]], first=rcv, is_async=bool(md.get("async")))
             body.append("")
     if not body:
         body = ["pass"]
